@@ -123,8 +123,15 @@ def tasks(tier, seed):
     from_types = NATIVE_TYPES if tier == 'thorough' else NATIVE_TYPES[::3]
     for typ in from_types:
         for sd in (1, 2):
-            t.append(dict(part='seeded', typ=typ, seed=sd, run=0, fresh=True))
-            t.append(dict(part='seeded', typ=typ, seed=sd, run=1, fresh=True))
+            # mode 'll': the formula is the log likelihood of the model; mode 'sim': a dictionary of formulas for simulation
+            # only (no log likelihood in it), evaluated by BIOGEME.simulate
+            for mode in ('ll', 'sim'):
+                if mode == 'sim' and tier == 'quick' and (sd != 1 or 'HALTON' in typ):
+                    continue
+                t.append(dict(part='seeded', typ=typ, seed=sd, run=0, fresh=True, mode=mode))
+                t.append(dict(part='seeded', typ=typ, seed=sd, run=1, fresh=True, mode=mode))
+    for i, pair in enumerate(itertools.permutations(list(DRAWS), 2)):
+        t.append(dict(part='sidebyside', pair=list(pair)))
     t.append(dict(part='native_table', tier=tier))
     pairs = [list(c) for c in itertools.permutations(list(DRAWS), 2)]
     for i, first in enumerate(pairs):
@@ -148,6 +155,8 @@ def run_task(task):
         _mc(task, rec)
     elif part == 'seeded':
         _seeded(task, rec)
+    elif part == 'sidebyside':
+        _sidebyside(task, rec)
     elif part == 'native_table':
         _native_table(task, rec)
     elif part == 'reuse':
@@ -274,6 +283,61 @@ def _reuse(task, rec):
     rec.sample(dict(part='reuse', first=task['first']))
 
 
+def _sidebyside(task, rec):
+    """Two Monte-Carlo formulas, each over its own draw variable, side by side in one BIOGEME object.  Histories: before
+    simulate(), any sequence (length 0..2) of the formulas is evaluated alone through the expression-level entry point
+    (which numbers the formula on its own and then restores the model's numbering); simulate() must still give, for each
+    formula, the mean over the series of its OWN variable; a formula evaluated alone afterwards as well."""
+    from vf.engine import make_biogeme
+    a, b_ = task['pair']
+    spec = {nm: (v, None, None, 0) for nm, v in PARAMS[0].items()}
+    p = PARAMS[0]
+    nobs, Rn = 2, 3
+    names = {'f_a': a, 'f_b': b_}
+    seqs = [[]] + [[k] for k in names] + [list(q) for q in itertools.permutations(names, 2)] + [[k, k] for k in names]
+    for kind in ('linear', 'exp'):
+        for seq in seqs:
+            for own_db in (False, True):
+                db, rows = make_db(nobs, [])
+                forms = {k: ('mc', integrands([nm])[kind]) for k, nm in names.items()}
+                exprs = {k: R.Builder(spec).build(f) for k, f in forms.items()}
+                case = dict(part='sidebyside', pair=task['pair'])
+                want = {}
+                for k, nm in names.items():
+                    want[k] = [R.evaluate(forms[k], row=row, params=p, draws={nm: [PATTERN[DRAWS[nm]](n_, r) for r in range(Rn)]})
+                               for n_, row in enumerate(rows)]
+                key = ('sidebyside', a, b_, kind, tuple(seq), own_db)
+                try:
+                    bs = make_biogeme(db, dict(exprs), number_of_draws=Rn)
+                    for k in seq:
+                        dbk = make_db(nobs, [])[0] if own_db else db
+                        alone = [float(v) for v in exprs[k].get_value_c(database=dbk, betas=dict(p), number_of_draws=Rn, prepare_ids=True)]
+                        if any(not close(g, w) for g, w in zip(alone, want[k])):
+                            rec.violation('C10|monte-carlo-value-not-mean-over-own-series|formula-of-a-model-evaluated-alone',
+                                          f'{k} over {names[k]} alone (history {seq}): {alone} expected {want[k]}', case)
+                    sim = bs.simulate({nm: p[nm] for nm in bs.free_beta_names})
+                    got = {k: [float(v) for v in sim[k]] for k in names}
+                except Exception as e:
+                    rec.case(key, ('raised', type(e).__name__), outcome='raised')
+                    rec.violation(f'C10|raised-{type(e).__name__}|side-by-side', f'{names} {kind} history {seq}: {str(e)[:200]}', case)
+                    rec.retire = True
+                    return
+                rec.case(key, (a, b_, kind, seq, own_db, [round(v, 10) for v in got['f_a'] + got['f_b']]), outcome=('sidebyside', len(seq)))
+                for k in names:
+                    if any(not close(g, w) for g, w in zip(got[k], want[k])):
+                        rec.violation('C10|monte-carlo-value-not-mean-over-own-series|side-by-side-after-alone-evaluations',
+                                      f'simulate after evaluating {seq} alone ({"another" if own_db else "the same"} database): {k} over '
+                                      f'{names[k]} = {got[k]}, expected {want[k]}', case, expected=want[k], observed=got[k])
+                        break
+    rec.sample(dict(part='sidebyside', pair=task['pair']))
+
+
+def _seeded_result(task):
+    rec = Rec()
+    _seeded(task, rec)
+    return dict(violations=rec.violations, extra=rec.extra)
+
+
 def _seeded(task, rec):
     """Value of a Monte-Carlo formula with a native type under a non-zero seed (fresh process each).
     The native generator is wrapped by a recorder: the value must be the mean over one of the series the
@@ -298,18 +362,23 @@ def _seeded(task, rec):
     bdb.native_random_number_generators[typ] = orig._replace(generator=recorder)
     try:
         expr = R.Builder(spec).build(formula)
-        b = make_biogeme(db, expr, number_of_draws=6, seed=sd)
-        x = np.array([PARAMS[0][nm] for nm in b.free_beta_names], dtype=float)
-        ll = float(b.calculate_likelihood(x, scaled=False))
+        if task.get('mode', 'll') == 'll':
+            b = make_biogeme(db, expr, number_of_draws=6, seed=sd)
+            x = np.array([PARAMS[0][nm] for nm in b.free_beta_names], dtype=float)
+            ll = float(b.calculate_likelihood(x, scaled=False))
+        else:
+            b = make_biogeme(db, {'integral': expr, 'other': R.Builder(spec).build(('*', V('x1'), B('s')))}, number_of_draws=6, seed=sd)
+            out = b.simulate({nm: PARAMS[0][nm] for nm in b.free_beta_names})
+            ll = float(sum(float(v) for v in out['integral']))
     finally:
         bdb.native_random_number_generators[typ] = orig
     wants = [sum(math.log(sum(math.exp(PARAMS[0]['s'] * d) for d in series) / len(series)) for series in table)
              for table in produced]
-    rec.case(('seeded', typ, sd, task['run']), None, outcome='seeded')  # digest deliberately excludes the numbers
+    rec.case(('seeded', typ, sd, task['run'], task.get('mode', 'll')), None, outcome=('seeded', task.get('mode', 'll')))  # digest deliberately excludes the numbers
     if not any(close(ll, w, 1e-9) for w in wants):
         rec.violation(f'C10|monte-carlo-value-not-mean-over-any-produced-series|native:{typ}',
-                      f'LL={ll!r} but the series produced by the generator give {wants}', dict(task))
-    rec.extra = dict(typ=typ, seed=sd, run=task['run'], ll=ll, table=produced)
+                      f'mode {task.get("mode", "ll")}: total={ll!r} but the series produced by the generator give {wants}', dict(task))
+    rec.extra = dict(typ=typ, seed=sd, run=task['run'], ll=ll, table=produced, mode=task.get('mode', 'll'))
     rec.sample(dict(part='seeded', typ=typ, seed=sd, ll=ll, tables_produced=len(produced)))
 
 
@@ -317,16 +386,16 @@ def finalize(agg, tier, seed):
     runs = {}
     for task, extra in agg.extras:
         if extra and 'typ' in extra:
-            runs.setdefault((extra['typ'], extra['seed']), []).append(extra)
-    for (typ, sd), lst in sorted(runs.items()):
+            runs.setdefault((extra['typ'], extra['seed'], extra.get('mode', 'll')), []).append(extra)
+    for (typ, sd, mode), lst in sorted(runs.items()):
         if len(lst) == 2:
             agg.counts['seed_reproducibility_pairs'] += 1
             if lst[0]['ll'] != lst[1]['ll'] or lst[0]['table'] != lst[1]['table']:
-                agg.violations.append(dict(key=f'C10|same-seed-different-results|native:{typ}',
-                                           what=f'seed {sd}: two fresh processes gave {lst[0]["ll"]} and {lst[1]["ll"]}',
-                                           case=dict(part='seeded', typ=typ, seed=sd, run=0)))
+                agg.violations.append(dict(key=f'C10|same-seed-different-results|native:{typ}' + ('' if mode == 'll' else '|simulation-only-formulas'),
+                                           what=f'seed {sd}, mode {mode}: two fresh processes gave {lst[0]["ll"]} and {lst[1]["ll"]}',
+                                           case=dict(part='seeded', typ=typ, seed=sd, run=0, mode=mode)))
     for typ in {k[0] for k in runs}:
-        a, b = runs.get((typ, 1)), runs.get((typ, 2))
+        a, b = runs.get((typ, 1, 'll')), runs.get((typ, 2, 'll'))
         if a and b and 'HALTON' not in typ:
             agg.counts['seed_sensitivity_pairs'] += 1
             if a[0]['table'] == b[0]['table']:
@@ -506,9 +575,21 @@ def replay(case):
         _mc(case, rec)
         rec.violations = [v for v in rec.violations if v['case'].get('formula') == case.get('formula')] or rec.violations
     elif part == 'seeded':
-        a = Rec()
-        _seeded(dict(case, run=0), a)
-        return a.violations
+        # two fresh processes, as in the check itself
+        import multiprocessing as mp
+        ctx = mp.get_context('spawn')
+        outs = []
+        for run in (0, 1):
+            with ctx.Pool(1) as pool:
+                outs.append(pool.apply(_seeded_result, (dict(case, run=run),)))
+        viol = outs[0]['violations'] + outs[1]['violations']
+        e0, e1 = outs[0]['extra'], outs[1]['extra']
+        if e0['ll'] != e1['ll'] or e0['table'] != e1['table']:
+            viol.append(dict(key=f"C10|same-seed-different-results|native:{case['typ']}", what=f"two fresh processes gave {e0['ll']} and {e1['ll']}",
+                             case=dict(case)))
+        return viol
+    elif part == 'sidebyside':
+        _sidebyside(case, rec)
     elif part == 'native_table':
         _native_table(case, rec)
     elif part == 'reuse':
